@@ -238,7 +238,33 @@ def _subst(node, env):
 _NI = "NotImplemented"
 
 
-def _body_dnf(stmts, env, problems):
+def _inline_predicates(e, recv, owner, resolve, depth=0):
+    """the expression with calls `recv.helper(a, ..)` of predicate helper methods (resolve(name) -> FunctionDef | None; plain-name
+    arguments) replaced by the boolean the helper returns (returned_bool) -- `self._same_grain(o)` is the conjunction it abbreviates"""
+    import copy
+    if resolve is None or depth > 3:
+        return e
+
+    class Inl(ast.NodeTransformer):
+        def visit_Call(self, n):
+            self.generic_visit(n)
+            if isinstance(n.func, ast.Attribute) and isinstance(n.func.value, ast.Name) and n.func.value.id == recv and not n.keywords \
+                    and all(isinstance(a, ast.Name) for a in n.args):
+                try:
+                    callee = resolve(n.func.attr)
+                except Exception:
+                    callee = None
+                if isinstance(callee, ast.FunctionDef) and callee is not owner and not callee.decorator_list and len(callee.args.args) == len(n.args) + 1:
+                    sub = returned_bool(callee, resolve)
+                    if sub is not None:
+                        m = {callee.args.args[0].arg: ast.Name(id=recv, ctx=ast.Load())}
+                        m.update({p.arg: a for p, a in zip(callee.args.args[1:], n.args)})
+                        return _SubstNames(m).visit(copy.deepcopy(sub))
+            return n
+    return ast.fix_missing_locations(Inl().visit(copy.deepcopy(e)))
+
+
+def _body_dnf(stmts, env, problems, inl=lambda e: e):
     """DNF (list of conjunctions = lists of leaf nodes) of the value a statement list returns, read as a boolean; `_NI` for the
     path that answers NotImplemented; None when a statement is not understood.  Guard clauses, nested ifs and single-assignment
     locals are followed:  `if c: return True` + rest  is  `c or rest`;  `if a: if b: return True` + rest  is  `(a and b) or rest`."""
@@ -263,16 +289,16 @@ def _body_dnf(stmts, env, problems):
                 return [[]]
             if isinstance(v, ast.Name) and v.id == _NI:
                 return _NI
-            v = _subst(v, env)
+            v = inl(_subst(v, env))
             if isinstance(v, ast.IfExp):
                 return _ite(v.test, _body_dnf([ast.Return(value=v.body)], {}, problems), _body_dnf([ast.Return(value=v.orelse)], {}, problems), problems)
             if isinstance(v, ast.Call) and isinstance(v.func, ast.Name) and v.func.id == "bool" and len(v.args) == 1 and not v.keywords:
                 v = v.args[0]
             return dnf(v)
         if isinstance(st, ast.If):
-            a = _body_dnf(list(st.body) + rest, env, problems)
-            b = _body_dnf(list(st.orelse) + rest, env, problems)
-            return _ite(_subst(st.test, env), a, b, problems)
+            a = _body_dnf(list(st.body) + rest, env, problems, inl)
+            b = _body_dnf(list(st.orelse) + rest, env, problems, inl)
+            return _ite(inl(_subst(st.test, env)), a, b, problems)
         problems.append(f"statement not understood in the equality method: {ast.unparse(st)[:60]}")
         return None
     return []           # falls off the end: None, falsy
@@ -305,12 +331,13 @@ def _ite(test, a, b, problems):
     return None
 
 
-def eq_disjuncts(fn: ast.FunctionDef):
-    """DNF of the value `__eq__` returns for two instances. -> (list of literal lists, problems)"""
+def eq_disjuncts(fn: ast.FunctionDef, resolve=None):
+    """DNF of the value `__eq__` returns for two instances. -> (list of literal lists, problems).  With `resolve(name) ->
+    FunctionDef | None`, calls `self.helper(o)` of predicate helpers of the same class are replaced by what the helper returns."""
     args = [a.arg for a in fn.args.args]
     selfname, oname = args[0], args[1]
     problems = []
-    d = _body_dnf(list(fn.body), {}, problems)
+    d = _body_dnf(list(fn.body), {}, problems, (lambda e: _inline_predicates(e, selfname, fn, resolve)) if resolve is not None else (lambda e: e))
     if d is None or d == _NI:
         if not problems:
             problems.append(f"no boolean value returned by {fn.name}")
